@@ -22,6 +22,9 @@ Init3 == { <<None, None, None>>,
            <<R("a", "A", 0), R("b", "B", 0), None>>,
            <<R("a", "A", 0), R("a", "B", 0), R("b", "A", 0)>>,
            <<None, R("b", "B", 0), R("b", "B", 0)>> }
+Init3q == { <<None, None, None>>,
+            <<R("a", "A", 0), R("b", "B", 0), None>>,
+            <<R("a", "A", 0), R("a", "B", 0), R("b", "A", 0)>> }
 Init3s == { <<R("a", "A", 0), R("b", "B", 1), None>>,
             <<R("a", "A", 1), R("a", "B", 0), R("b", "A", 0)>> }
 Init3h == { <<R("a", "A", 0), R("b", "A", 1), None>>,
